@@ -205,7 +205,7 @@ Definition keys_of (m : list (Z * Z)) := map fst m.
 Inductive verdict := VOk | VFail (cls : nat) (detail : Z).
 (* classes: 1 above-total-limit  2 above-host-limit  3 host-counter-wrong  4 group-counter-wrong
             5 admitted-while-banned  6 refused-without-cause  7 decision-state-mismatch
-            8 left-peer-still-admitted  9 count-field-wrong *)
+            8 left-peer-still-admitted  9 count-field-wrong  10 admitted-after-it-left *)
 
 Definition lookup_all (peers : list (Z * peer)) (ids : list Z) : list peer :=
   flat_map (fun k => match pinfo peers k with Some p => [p] | None => [] end) ids.
@@ -253,12 +253,18 @@ Definition o_anywhere (o : ost) (k : Z) : bool := zmem k (o_inb o) || zmem k (o_
 
 Definition empty_ost := mkOst 0 [] [] [] [] [] [].
 
+(* the peer object was already delivered to Done (the server only does that after the peer
+   disconnected: peerDoneHandler waits for WaitForDisconnect) *)
+Definition was_done (hist : list ev) (k : Z) : bool :=
+  existsb (fun e => match e with Done q => pid q =? k | _ => false end) hist.
+
 (* one event of the history with the observed decision and the observed states before/after *)
 Definition check_event (c : cfg) (peers : list (Z * peer)) (hist : list ev) (pre : ost) (e : ev) (d : bool) (post : ost) : verdict :=
   match e with
   | Add p now =>
     let banned_now := active_ban c hist (host p) now in
     if banned_now && d then VFail 5 (pid p)
+    else if d && was_done hist (pid p) then VFail 10 (pid p)
     else if negb banned_now && negb d
             && (count_recs (fun q => host q =? host p) (lookup_all peers (o_inb pre ++ o_outb pre)) <? max_per_ip c)
             && (zlen (o_inb pre ++ o_outb pre ++ o_pers pre) <? max_peers c) then VFail 6 (pid p)
